@@ -107,7 +107,15 @@ def ga(node):
     return node["ret"]
 
 
-RAW = {"fa": fa, "fb": fb, "fc": fc, "ga": ga}
+def fd(script):
+    """An instrumented *driver*: runs a script of closures inside its own activation."""
+    u = 1000
+    for step in script:
+        step()
+    return u
+
+
+RAW = {"fa": fa, "fb": fb, "fc": fc, "ga": ga, "fd": fd}
 DISPATCH.update(RAW)
 
 
